@@ -424,16 +424,18 @@ Proof.
 Qed.
 
 Lemma single_data f : r_len f <= Z.of_nat (length (firstn MAXLEN (chunk 0 f))) ->
-  firstn (Z.to_nat (r_len f)) (firstn MAXLEN (chunk 0 f) ++ repeat 255 223) = chunk 0 f /\ (0 <= r_len f -> Z.of_nat (length (chunk 0 f)) = r_len f).
+  firstn (Z.to_nat (r_len f)) (firstn MAXLEN (chunk 0 f) ++ repeat 255 223) = chunk 0 f /\ (0 <= r_len f -> Z.of_nat (length (chunk 0 f)) = r_len f) /\
+  (length (chunk 0 f) <= MAXLEN)%nat.
 Proof.
   intros Er.
   assert (Hc0 : chunk 0 f = firstn (Z.to_nat (r_len f)) (r_buf f)) by (unfold chunk; rewrite Nat.sub_0_r; reflexivity).
   assert (Hle : (length (chunk 0 f) <= Z.to_nat (r_len f))%nat) by (rewrite Hc0; apply firstn_le_length).
   assert (Hsmall : (length (chunk 0 f) <= MAXLEN)%nat).
   { destruct (Nat.le_gt_cases (length (chunk 0 f)) MAXLEN); auto. rewrite firstn_length, Nat.min_l in Er by lia. unfold MAXLEN in *. lia. }
-  rewrite (firstn_all2 (chunk 0 f) Hsmall) in *. split.
+  rewrite (firstn_all2 (chunk 0 f) Hsmall) in *. split; [|split].
   - rewrite firstn_app_short by lia. apply firstn_all2. exact Hle.
   - intros. lia.
+  - exact Hsmall.
 Qed.
 
 Lemma rx_nontp_post c p f D g r pri pgn src dst r1 ev idx :
@@ -558,7 +560,7 @@ Proof.
         -- cbv zeta. rewrite <- A12, <- A9. apply slot_msg_data. lia.
         -- intros X. congruence.
       * exists (length p), f. cbn [m_pgn m_src m_dst m_pri]. subst s' base. cbn [s_pgn s_src s_dst s_pri s_len s_data] in *.
-        rewrite Hdata in Er. destruct (single_data f Er) as [SD1 SD2].
+        rewrite Hdata in Er. destruct (single_data f Er) as (SD1 & SD2 & SD3).
         repeat split; auto; try congruence.
         -- apply nth_error_snoc. -- rewrite <- Fpri. symmetry. apply fpri_land.
         -- unfold slot_msg. cbn [m_data s_len s_data]. rewrite (copy_buf_first 0) by lia. exact SD1.
